@@ -41,7 +41,9 @@ class PcaClassifier:
         self.n_components = n_components
         self.n_clusters = n_clusters
 
-        self._pca = PCA(n_components=n_components)
+        # NOTE: the "auto" solver switches to a randomized SVD without power iterations
+        # for more than 500 images or pixels, which is far from the exact PCA.
+        self._pca = PCA(n_components=n_components, svd_solver="full")
         self._kmeans = KMeans(n_clusters=n_clusters, random_state=seed, n_init=10)
 
     @property
